@@ -125,8 +125,15 @@ def content(fmt, triples, pfx=0):
     return g.serialize(format="xml" if fmt == "xml" else "json-ld")
 
 
-def write(path, text, comp):
-    if comp == "gz":
+def write(path, text, comp, members=1):
+    if comp == "gz" and members > 1:
+        # a gz file written in batches (gzip.open(path, "ab"), cat a.gz b.gz, bgzip): several gzip members, one document
+        data = text.encode("utf-8")
+        cut = len(data) // 2
+        with open(path, "wb") as f:
+            f.write(gzip.compress(data[:cut]))
+            f.write(gzip.compress(data[cut:]))
+    elif comp == "gz":
         with gzip.open(path, "wt", encoding="utf-8") as f:
             f.write(text)
     elif comp == "xz":
@@ -185,7 +192,7 @@ def channel_kwargs(ch, triples, d, idx):
     paths = []
     for j, p in enumerate(parts):
         path = os.path.join(d, "c%d_p%d.%s%s" % (idx, j, ext, {"gz": ".gz", "xz": ".xz"}.get(comp, "")))
-        write(path, content(fmt, p, ch.get("pfx", 0)), comp)
+        write(path, content(fmt, p, ch.get("pfx", 0)), comp, members=2 if ch.get("pfx", 0) % 3 == 0 else 1)
         paths.append(path)
     if ch.get("empty_at") is not None and how == "files":
         path = os.path.join(d, "c%d_empty.%s%s" % (idx, ext, {"gz": ".gz", "xz": ".xz"}.get(comp, "")))
